@@ -5,7 +5,8 @@ import z3
 
 from pyvc.api import A, FnSpec
 from pyvc.containers import SObj
-from pyvc.values import SBool, SStr, STuple, SVal, Unsupported, fresh_name
+from pyvc.engine import SClass
+from pyvc.values import SBool, SMaybe, SStr, STuple, SVal, Unsupported, fresh_name
 
 from .wrappers import MEMBERS, NodeAclEnum
 
@@ -173,3 +174,232 @@ class SchemaCls(SVal):
 
     def meth_ref(self, cx):
         return Stored()
+
+
+# ---- raw getters/setters of MetadorMeta: the per-node cache `_objs` and the raw container stay paired (C07, C06, C08) -----
+
+from pyvc.containers import STR, ClassDecl, SMap, SRef, TRef  # noqa: E402
+
+Ref = z3.DeclareSort("Ref")
+ClassDecl("StoredMetadata", {"uuid": STR, "schema": TRef("PluginRefObj"), "node": TRef("RawNode")})
+ClassDecl("PluginRefObj", {"name": STR})
+ClassDecl("RawNode", {"name": STR}, bases=("H5DatasetLike",))  # what is found at a metadata path is a dataset (T1)
+EPNAME = z3.Function("ep_name_of_ref", Ref, S)
+SUPPORTS = z3.Function("ref_supports", S, Key, Ref, B)  # PluginRef(name, version-of-key).supports(stored ref)  (C16)
+BYTES_OF = z3.Function("bytes_of_object", Ref, S)
+FRESH_UUID = z3.String("fresh_uuid")
+
+
+class RawCont(SVal):
+    def py_setitem(self, cx, k, v):
+        cx.effect("raw-set", k.t if isinstance(k, SStr) else z3.StringVal(k), v)
+        cx.ghost["raw_last_set"] = k.t if isinstance(k, SStr) else z3.StringVal(k)
+
+    def py_delitem(self, cx, k):
+        cx.effect("raw-del", k.t if isinstance(k, SStr) else z3.StringVal(k))
+
+    def py_getitem(self, cx, k):
+        kt = k.t if isinstance(k, SStr) else z3.StringVal(k)
+        n = SRef.fresh("RawNode", "raw_node")
+        cx.assume(n.py_getattr(cx, "name").t == kt)  # the node found at a path has that path as its name
+        return n
+
+
+class LinksStub(SVal):
+    def meth_fresh_uuid(self, cx):
+        cx.effect("fresh-uuid")
+        return UuidVal(FRESH_UUID)
+
+    def meth_register(self, cx, stored):
+        cx.effect("links-register", stored)
+
+    def meth_unregister(self, cx, uuid):
+        cx.effect("links-unregister", uuid.t if isinstance(uuid, (SStr, UuidVal)) else uuid)
+
+
+class UuidVal(SVal):
+    def __init__(self, t):
+        self.t = t
+
+    def py_str(self, cx):
+        return SStr(self.t)
+
+
+def rawmeta_obj(cx):
+    m = SObj("MetadorMetaRaw", name="self")
+    m.fields["_objs"] = SMap.fresh(STR, TRef("StoredMetadata"), "objs")
+    m.fields["_base_dir"] = SStr(z3.String("base_dir"))
+    mc = SObj("ContainerStub", name="mc")
+    mc.fields["__wrapped__"] = RawCont()
+    toc = SObj("TocStub", name="toc")
+    toc.fields["_links"] = LinksStub()
+    mc.fields["metador"] = toc
+    m.fields["_mc"] = mc
+    return m
+
+
+def objs_keyed_by_schema_name(cx, objs, tag="ok"):
+    k = z3.String(fresh_name(tag))
+    st = SRef("StoredMetadata", objs.get_term(k))
+    return z3.ForAll([k], z3.Implies(objs.has(k), st.py_getattr(cx, "schema").py_getattr(cx, "name").t == k))
+
+
+class SetRaw(FnSpec):
+    file = "container/interface.py"
+    qual = "MetadorMeta._set_raw"
+    props = ("C07", "C06", "C08")
+
+    def init(self):
+        self.bindings["_ep_name_for"] = lambda cx, r: SStr(EPNAME(r.t))
+        self.bindings["bytes"] = lambda cx, o: ObjBytes(o.t)
+        self.bindings["H5DatasetLike"] = SClass("H5DatasetLike")
+        self.bindings["StoredMetadata"] = stored_ctor
+        self.bindings["str"] = lambda cx, v: v.py_str(cx) if hasattr(v, "py_str") else v
+
+    def setup(self, cx):
+        m = rawmeta_obj(cx)
+        a = A(self=m, schema_ref=SRef.fresh("PluginRefObj", "schema_ref"), obj=SRef.fresh("SchemaInstance", "obj"))
+        a.objs0 = m.fields["_objs"].snapshot()
+        cx.ghost["objs0"] = a.objs0
+        return a
+
+    def requires(self, cx, a):
+        return [("cache-keyed-by-schema-name", objs_keyed_by_schema_name(cx, a.self.fields["_objs"], "rk"))]
+
+    def ensures(self, cx, a, res):
+        m = a.self
+        objs = m.fields["_objs"]
+        name = a.schema_ref.py_getattr(cx, "name").t
+        path = z3.Concat(m.fields["_base_dir"].t, z3.StringVal("/"), EPNAME(a.schema_ref.t), z3.StringVal("="), FRESH_UUID)
+        fx = cx.fx
+        kinds = [e[0] for e in fx]
+        ok = kinds == ["fresh-uuid", "raw-set", "links-register"]
+        k = z3.String(fresh_name("ek"))
+        out = [("protocol", z3.BoolVal(ok), "reserve a fresh UUID, store the object in the raw container, register the link — in this order, nothing else")]
+        if not ok:
+            return out
+        st = fx[2][1]
+        cur = SRef("StoredMetadata", objs.get_term(name))
+        out += [
+            ("stored-at-the-canonical-path", z3.And(fx[1][1] == path, z3.BoolVal(isinstance(fx[1][2], ObjBytes)), (fx[1][2].t == a.obj.t) if isinstance(fx[1][2], ObjBytes) else False), "the object's bytes go to <meta dir>/<schema__version>=<uuid>"),
+            ("registered-object-describes-it", z3.And(st.py_getattr(cx, "uuid").t == FRESH_UUID, st.py_getattr(cx, "schema").t == a.schema_ref.t, st.py_getattr(cx, "node").py_getattr(cx, "name").t == path), "the TOC link is registered for the same UUID, schema and stored node"),
+            ("cache-updated-under-the-schema-name", z3.And(objs.has(name), cur.t == st.t, z3.ForAll([k], z3.Implies(k != name, z3.And(objs.has(k) == a.objs0.has(k), objs.get_term(k) == a.objs0.get_term(k))))), "the node's metadata cache maps the schema NAME to the new object (so the same handle sees it: get, in, delete, second-attach refusal)"),
+            ("cache-still-keyed-by-schema-name", objs_keyed_by_schema_name(cx, objs, "pk"), "every cache entry sits under the name of its schema"),
+        ]
+        return out
+
+
+class ObjBytes(SVal):
+    def __init__(self, t):
+        self.t = t
+
+
+def stored_ctor(cx, uuid=None, schema=None, node=None):
+    st = SRef.fresh("StoredMetadata", "stored")
+    objs0 = cx.ghost.get("objs0")
+    if objs0 is not None:  # a constructor returns a new object: different from every object the cache already holds
+        k = z3.String(fresh_name("fk"))
+        cx.assume(z3.ForAll([k], z3.Implies(objs0.has(k), objs0.get_term(k) != st.t)))
+    st.py_setattr(cx, "uuid", SStr(uuid.t) if isinstance(uuid, UuidVal) else uuid)
+    st.py_setattr(cx, "schema", schema)
+    st.py_setattr(cx, "node", node)
+    return st
+
+
+class DelRaw(FnSpec):
+    file = "container/interface.py"
+    qual = "MetadorMeta._del_raw"
+    props = ("C07", "C06", "C08")
+
+    def setup(self, cx):
+        m = rawmeta_obj(cx)
+        unlink_shape = cx.choose(2)
+        a = A(self=m, schema_name=SStr(z3.String("schema_name")), _unlink=(True if unlink_shape == 0 else False))
+        a.objs0 = m.fields["_objs"].snapshot()
+        return a
+
+    def requires(self, cx, a):
+        return [("cache-keyed-by-schema-name", objs_keyed_by_schema_name(cx, a.self.fields["_objs"], "rk"))]
+
+    def raises(self, cx, a):
+        return {"KeyError": z3.Not(a.objs0.has(a.schema_name.t))}
+
+    def on_raise(self, cx, a, exc):
+        return [("nothing-deleted", z3.BoolVal(not cx.fx), "deleting what is not attached changes nothing")]
+
+    def ensures(self, cx, a, res):
+        m = a.self
+        objs = m.fields["_objs"]
+        name = a.schema_name.t
+        st0 = SRef("StoredMetadata", a.objs0.get_term(name))
+        k = z3.String(fresh_name("ek"))
+        fx = cx.fx
+        kinds = [e[0] for e in fx]
+        empty_after = z3.Not(z3.Exists([k], z3.And(a.objs0.has(k), k != name)))
+        pre = ["links-unregister"] if a._unlink else []
+        shape_ok = kinds in (pre + ["raw-del"], pre + ["raw-del", "raw-del"])
+        out = [("protocol", z3.BoolVal(shape_ok), "unlink in the TOC (unless told not to), delete the object, then the metadata directory if it became empty — nothing else")]
+        if not shape_ok:
+            return out
+        i = len(pre)
+        if a._unlink:
+            out.append(("unlinks-this-objects-uuid", fx[0][1] == st0.py_getattr(cx, "uuid").t, "the TOC link of exactly this object is removed"))
+        out += [
+            ("deletes-the-stored-node", fx[i][1] == st0.py_getattr(cx, "node").py_getattr(cx, "name").t, "the stored object's node is deleted"),
+            ("cache-loses-exactly-this-entry", z3.ForAll([k], z3.And(objs.has(k) == z3.And(a.objs0.has(k), k != name), z3.Implies(k != name, objs.get_term(k) == a.objs0.get_term(k)))), "the cache loses exactly this schema name"),
+            ("empty-metadata-directory-removed", z3.And(z3.BoolVal(len(kinds) == i + 2) == empty_after, (fx[i + 1][1] == m.fields["_base_dir"].t) if len(kinds) == i + 2 else True), "no empty bookkeeping group is left behind: the node's metadata directory is deleted exactly when its last object went away (judged AFTER removing this one)"),
+        ]
+        return out
+
+
+class GetRaw(FnSpec):
+    file = "container/interface.py"
+    qual = "MetadorMeta._get_raw"
+    props = ("C07",)
+
+    def init(self):
+        self.bindings["schemas"] = SchemasRefCtor()
+
+    def setup(self, cx):
+        m = rawmeta_obj(cx)
+        k = z3.Const("version_key", Key)
+        a = A(self=m, schema_name=SStr(z3.String("schema_name")), version=VerVal(k))
+        a.k = k
+        return a
+
+    def ensures(self, cx, a, res):
+        objs = a.self.fields["_objs"]
+        name = a.schema_name.t
+        st = SRef("StoredMetadata", objs.get_term(name))
+        want = z3.And(objs.has(name), z3.Or(z3.Not(KEY_HAS_VER(a.k)), SUPPORTS(name, a.k, st.py_getattr(cx, "schema").t)))
+        is_none = z3.BoolVal(res is None) if not isinstance(res, SMaybe) else res.isnone
+        same = z3.BoolVal(True)
+        if isinstance(res, SRef):
+            same = res.t == st.t
+        elif isinstance(res, SMaybe) and isinstance(res.val, SRef):
+            same = z3.Implies(z3.Not(res.isnone), res.val.t == st.t)
+        return [
+            ("found-iff-attached-and-compatible", z3.Not(is_none) == want, "the object of that schema name is returned iff one is attached and, when a version is requested, the request supports the stored version"),
+            ("returns-the-cached-object", same, "what is returned is the attached object itself"),
+        ]
+
+
+class SchemasRefCtor(SVal):
+    def meth_PluginRef(self, cx, name=None, version=None):
+        return ReqRef(name.t, version.k)
+
+
+class ReqRef(SVal):
+    def __init__(self, name_t, k):
+        self.name_t, self.k = name_t, k
+
+    def meth_supports(self, cx, other):
+        return SBool(SUPPORTS(self.name_t, self.k, other.t))
+
+
+def add_interface_raw(reg):
+    reg.set_class_home("MetadorMetaRaw", "container/interface.py", "MetadorMeta")
+    specs = [SetRaw(), DelRaw(), GetRaw()]
+    for s in specs:
+        reg.add(s)
+    return specs
